@@ -124,7 +124,7 @@ def cs_resolve(res: dict, name: str):
     ent = (res.get("cspaces") or {}).get(name)
     if ent is not None:
         fam, n = ent[0], ent[1]
-        return ("defined", fam, n) if (fam in KNOWN_FAMILY and n in (1, 3, 4)) else ("outside",)
+        return ("defined", fam, n) if (fam in KNOWN_FAMILY and n >= 1) else ("outside",)
     if name in DEVICE_CS:
         return ("defined", name, DEVICE_CS[name])
     return ("outside",) if name in NEEDS_PARAMS else ("undefined",)
@@ -146,7 +146,7 @@ def gen_cspaces(rng, wild: bool) -> dict:
             fam = rng.choice(list(DEVICE_CS))
             out[nm] = [fam, DEVICE_CS[fam], "alias"]
         elif r < 0.55:
-            out[nm] = ["ICCBased", rng.choice([1, 3, 4]), "icc"]
+            out[nm] = ["ICCBased", rng.choice([1, 3, 4, 2]), "icc"]
         elif r < 0.7:
             fam = rng.choice(["CalRGB", "CalGray", "Lab"])
             out[nm] = [fam, {"CalRGB": 3, "CalGray": 1, "Lab": 3}[fam], "cie"]
@@ -155,7 +155,7 @@ def gen_cspaces(rng, wild: bool) -> dict:
         elif r < 0.88:
             out[nm] = ["Indexed", 1, "indexed"]
         else:
-            out[nm] = ["DeviceN", rng.choice([1, 3, 4, 2] if wild else [1, 3, 4]), "devn"]
+            out[nm] = ["DeviceN", rng.choice([1, 2, 3, 4, 5, 2]), "devn"]     # any number of colorants
     return out
 PREDEFINED = [("DeviceGray", 1), ("CalRGB", 3), ("CalGray", 1), ("Lab", 3), ("DeviceRGB", 3), ("DeviceCMYK", 4),
               ("Separation", 1), ("Indexed", 1), ("Pattern", 1)]
@@ -1631,6 +1631,16 @@ def directed_cases() -> List[dict]:
     c["trail"] = [N(7)]
     c["name"] = "colourspace-resources-per-content"
     out.append(c)
+    # colour spaces with 2 and with 5 components: sc takes that many operands, too few are ignored
+    c = json.loads(json.dumps(base))
+    c["res"]["cspaces"] = {"CS0": ["DeviceN", 2, "devn"], "CS1": ["ICCBased", 2, "icc"], "Cs2": ["DeviceN", 5, "devn"]}
+    c["prog"] = json.loads(json.dumps(
+        [["cs", [["/", "CS0"]]]] + show + [["sc", [N(F(1, 4)), N(F(3, 4))]]] + show + [["sc", [N(F(1, 2))]]] + show +
+        [["Tc", []], ["cs", [["/", "CS1"]]], ["scn", [N(1), N(0)]]] + show +
+        [["cs", [["/", "Cs2"]]]] + show + [["scn", [N(0), N(F(1, 8)), N(F(1, 4)), N(F(1, 2)), N(1)]]] + show +
+        [["CS", [["/", "CS0"]]], ["SCN", [N(F(1, 2)), N(F(3, 4))]], ["Tw", []]] + show))
+    c["name"] = "n-component-colour-spaces"
+    out.append(c)
     # every piece of interpreter state a page can leave dirty, and a next page that would see it
     c = json.loads(json.dumps(base))
     c["prog"] = json.loads(json.dumps(
@@ -1657,8 +1667,12 @@ def run(ctx: C.Ctx) -> None:
         check_case(ctx, c, True, batch, "directed")
     flush(ctx, batch)
     n = ctx.n(1200, 40000)
+    import time
+    # thorough: the whole command (Lean build + audit + leanchecker, corpus, generation, hermetic re-evaluation of
+    # failures) has to fit into 25 minutes: stop generating after 18 minutes of harness time
+    stop_at = time.time() + (18 * 60 if ctx.tier == "thorough" else 10 ** 9)
     for i in range(n):
-        if not ctx.time_left():
+        if not ctx.time_left() or time.time() > stop_at:
             ctx.notes.append("time budget reached after %d generated cases" % i)
             break
         wild = (i % 5 == 4)
